@@ -20,6 +20,7 @@ import os
 import re
 
 import hir as H
+import rulelib as L
 import mir as M
 from report import Reporter, VERIF
 from rulelib import short, require_tried_before_success
@@ -67,8 +68,9 @@ class Site:
 
     @property
     def key_fn(self):
-        """Function key without closure ordinals (`f::{closure#2}` → `f::{closure}`): adding or removing an unrelated closure must not re-key a site."""
-        return re.sub(r"\{closure#\d+\}", "{closure}", self.fn)
+        """Function key without closures (`f::{closure#2}` → `f`): moving an expression into or out of a closure of the same function, or
+        adding an unrelated closure, must not re-key a site."""
+        return re.sub(r"(::\{closure#\d+\})+", "", self.fn)
 
     def where(self):
         return self.sp
@@ -388,6 +390,58 @@ def g_const_index_len(ctx, site, node):
     return "no dominating length test on `%s` covering %d element(s)" % (base, need)
 
 
+def g_sym_index(ctx, site, node):
+    """By abstract evaluation of the whole function: on every path, each `base[i]` / `base[a..b]` with constant bounds is evaluated
+    only after the path's decisions established a length of `base` that covers it (`len == N`, `len >= N`, `!(len < N)`, …)."""
+    import sym as SY
+    import symrules as SR
+    try:
+        paths = SY.Evaluator(ctx.F, inline_depth=3).explore(ctx.fn, max_paths=2000)
+    except (SY.Abort, SY.TooManyPaths) as e:
+        return "the function could not be evaluated abstractly: %s" % e
+    seen = 0
+    for q in paths:
+        for e in q.events:
+            if e.kind != "index":
+                continue
+            b, i = e.args
+            if isinstance(i, int) and not isinstance(i, bool):
+                need = i + 1
+            elif isinstance(i, SY.St) and i.ty.startswith("core::ops::range::Range"):
+                hi, lo = i.f.get("end"), i.f.get("start", 0)
+                if hi is None:
+                    need = lo if isinstance(lo, int) else None
+                else:
+                    need = (hi + (1 if i.ty.endswith("Inclusive") else 0)) if isinstance(hi, int) else None
+                if isinstance(lo, int) and isinstance(hi, int) and lo > hi:
+                    return "constant range %d..%d is reversed" % (lo, hi)
+            else:
+                need = None
+            if need is None:
+                return "index `%s` is not a constant or constant range" % (i,)
+            seen += 1
+            bt = SY.term(b)
+
+            def is_len(t_):
+                return isinstance(t_, tuple) and t_[:1] == ("call",) and re.sub(r"<[^<>]*>", "", t_[1]).endswith("::len") and len(t_[2]) == 1 and SR.pure(t_[2][0], bt, conv=re.compile(r"(as_ref|as_slice|deref|borrow|as_bytes|as_str)$"))
+            ok = False
+            for (a, c, _, _) in q.decisions[:e.nd]:
+                if a[0] == "eq" and c:
+                    for x, y in ((a[1], a[2]), (a[2], a[1])):
+                        if is_len(x) and isinstance(y, tuple) and y[:1] == ("lit",) and isinstance(y[1], int) and y[1] >= need:
+                            ok = True
+            if not ok:
+                class _P:      # the decisions made before the index expression
+                    decisions = q.decisions[:e.nd]
+                lo_, _hi = SR.int_bounds(_P, is_len)
+                ok = lo_ is not None and lo_ >= need
+            if not ok:
+                return "a path evaluates `%s[%s]` without having established that the length covers %d element(s): %s" % (SY.fmt(bt), i if isinstance(i, int) else "%s..%s" % (i.f.get("start", ""), i.f.get("end", "")), need, q.describe()[:160] or "(unconditional)")
+    if not seen:
+        return "no constant index expression was reached on any evaluated path"
+    return None
+
+
 def g_arg_not_empty(ctx, site, node):
     # X.expect() where X = f(arg): `!arg.is_empty()` dominates
     inner = H.strip(node["recv"])
@@ -443,7 +497,7 @@ def g_ec_coordinates(ctx, site, node):
 
 
 GUARDS = {
-    "len==1": g_len_eq_1, "idx<len": g_index_lt_len, "const-index": g_const_index_len, "arg-not-empty": g_arg_not_empty,
+    "len==1": g_len_eq_1, "idx<len": g_index_lt_len, "const-index": g_const_index_len, "sym-index": g_sym_index, "arg-not-empty": g_arg_not_empty,
     "replace-rematch": g_replace_rematch, "ec-coordinates": g_ec_coordinates,
 }
 
@@ -463,14 +517,14 @@ DID_PARSE = "did_url_parser::did::DID::parse"
 TABLE = [
     # identity_core
     (IC + "one_or_many::OneOrMany::push", "panic!", 1, "GUARD", "replace-rematch", ""),
-    ("<" + IC + "one_or_many::OneOrMany as core::convert::From<alloc::vec::Vec>>::from", "Option::expect", 1, "GUARD", "len==1", ""),
+    ("<" + IC + "one_or_many::OneOrMany as core::convert::From<alloc::vec::Vec>>::from", "Option::expect", 1, "RULE", ["C19-R4"], "the model check of C19-R4 evaluates From<Vec<T>> on 0..3 elements and reports any path that panics"),
     ("<" + IC + "one_or_many::OneOrManyIter as core::iter::traits::iterator::Iterator>::next", "Overflow(Add)", 1, "REVIEWED", None,
      "the counter grows by one per `next` call; 2^64 calls are not reachable"),
     ("<" + IC + "one_or_many::OneOrManyIter as core::iter::traits::iterator::Iterator>::next", "Overflow(Sub)", 1, "REVIEWED", None,
      "`index - 1` directly after `index += 1` on the same field"),
-    (IC + "one_or_set::OneOrSet::new_set", "Option::expect", 1, "GUARD", "len==1", ""),
-    (IC + "one_or_set::OneOrSet::map", "Option::expect", 1, "GUARD", "len==1", ""),
-    (IC + "one_or_set::OneOrSet::try_map", "Option::expect", 1, "GUARD", "len==1", ""),
+    (IC + "one_or_set::OneOrSet::new_set", "Option::expect", 1, "RULE", ["C19-R4"], "the model check of C19-R4 evaluates this function on 0..3 elements in every key-equality world and reports any path that panics"),
+    (IC + "one_or_set::OneOrSet::map", "Option::expect", 1, "RULE", ["C19-R4"], "the model check of C19-R4 evaluates this function on 0..3 elements in every key-equality world and reports any path that panics"),
+    (IC + "one_or_set::OneOrSet::try_map", "Option::expect", 1, "RULE", ["C19-R4"], "the model check of C19-R4 evaluates this function on 0..3 elements in every key-equality world and reports any path that panics"),
     (IC + "one_or_set::OneOrSet::append", "panic!", 1, "GUARD", "replace-rematch", ""),
     ("<" + IC + "one_or_set::OneOrSetIter as core::iter::traits::iterator::Iterator>::next", "Overflow(Add)", 1, "REVIEWED", None,
      "the counter grows by one per `next` call; 2^64 calls are not reachable"),
@@ -563,7 +617,7 @@ TABLE = [
     ("<identity_jose::jwk::key_set::JwkSet as core::ops::index::IndexMut<I>>::index_mut", "Index::index", 1, "REVIEWED", None,
      "`IndexMut` impl: out-of-range is the documented contract of `set[i]`; no workspace caller (checked: callers = 0)"),
     # identity_storage
-    (ST + "key_id_storage::method_digest::MethodDigest::unpack", "Index::index", 2, "GUARD", "const-index", ""),
+    (ST + "key_id_storage::method_digest::MethodDigest::unpack", "Index::index", 2, "GUARD", "sym-index", ""),
     (ST + "key_storage::bls::encode_bls_jwk", "Option::expect", 1, "REVIEWED", None, "the Jwk was built three lines above from OKP parameters; `to_public` is None only for `oct`"),
     ("<" + ST + "key_storage::memstore::JwkMemStore as " + ST + "key_storage::jwk_storage::JwkStorage>::generate::{closure#0}", "Option::expect", 1, "REVIEWED", None,
      "the Jwk was just generated as OKP/Ed25519; `to_public` is None only for `oct`"),
@@ -711,7 +765,7 @@ def run(F, R, tier):
     _EB["eb"] = bounds.eb
     table = {}
     for fn, what, n, cls, arg, reason in TABLE:
-        k = (re.sub(r"\{closure#\d+\}", "{closure}", fn), what)
+        k = (re.sub(r"(::\{closure#\d+\})+", "", fn), what)
         if k in table:   # two closures of one function with the same construct: counts add up
             n0, cls0, arg0, reason0 = table[k]
             table[k] = (n0 + n, cls0, arg0, reason0 if reason0 == reason else reason0 + " / " + reason)
@@ -743,39 +797,40 @@ def run(F, R, tier):
         groups.setdefault((s.key_fn, s.what), []).append(s)
 
     used = set()
-    # a reviewed site that moved into a private helper extracted from the reviewed function: the helper has exactly one calling
-    # function, that function has a table entry for the same construct and now shows fewer sites than were reviewed there
-    def norm(p_):
-        return re.sub(r"\{closure#\d+\}", "{closure}", p_)
-
+    # a discharged site that moved into a private helper extracted from the function(s) it was reviewed in: the helper is not
+    # exported, every (transitive) caller is a function with a table entry for the same construct whose class is REVIEWED or RULE,
+    # and those functions now show correspondingly fewer sites
     def base_fn(p_):
-        return re.sub(r"(::\{closure\})+$", "", norm(p_))
+        return re.sub(r"(::\{closure#\d+\})+", "", p_)
     moved = {}
     for (fn, what), ss in sorted(groups.items()):
         if (fn, what) in table:
             continue
-        helper = base_fn(fn)
-        f_ = F.fns.get(helper)
-        if f_ is None or f_.get("exported"):
+        owners = {tfn for (tfn, twhat), ent_ in table.items() if twhat == what and ent_[1] in ("REVIEWED", "RULE")}
+        serves = L.private_helper_of(F, fn, owners)
+        if not serves:
             continue
-        callers = {base_fn(p_) for (p_, _, _) in F.callers(helper)} - {helper}
-        if len(callers) != 1:
-            continue
-        caller = callers.pop()
-        for (tfn, twhat), (n_, cls_, arg_, reason_) in table.items():
-            if twhat == what and base_fn(tfn) == caller and cls_ == "REVIEWED":
-                have = len(groups.get((tfn, twhat), []))
-                if have + len(ss) <= n_:
-                    moved[(fn, what)] = (tfn, reason_)
+        budget = sum(table[(o, what)][0] - len(groups.get((o, what), [])) for o in serves)
+        if len(ss) <= budget:
+            o0 = sorted(serves)[0]
+            moved[(fn, what)] = (o0, table[(o0, what)], sorted(serves))
     for (fn, what), ss in sorted(groups.items()):
         if (fn, what) in moved:
-            tfn, reason_ = moved[(fn, what)]
+            tfn, (n_, cls_, arg_, reason_), serves_ = moved[(fn, what)]
+            okm = True
+            if cls_ == "RULE":
+                for rid in arg_:
+                    res = subordinate(F, rid.split("-")[0], tier)
+                    if rid not in res or res[rid]:
+                        okm = False
+                        r1.fail((fn, what, "rule-failed", rid), "%s: `%s` is only safe while %s holds, and it reported %s" % (short(fn), what, rid, (res.get(rid) or ["did not run"])[0]), ss[0].sp)
             for s_ in ss:
-                s_.cls = "REVIEWED"
-                counts["REVIEWED"] += 1
-                r1.site("%s: %s [REVIEWED, moved out of %s] %s" % (short(fn), what, short(tfn), reason_), s_.sp)
-            used.add((tfn, what))
-            r1.exception("%s | %s ×%d" % (fn, what, len(ss)), "reviewed", "moved with its code out of %s: %s" % (tfn, reason_))
+                s_.cls = cls_
+                counts[cls_] += 1
+                r1.site("%s: %s [%s, moved out of %s] %s" % (short(fn), what, cls_, ", ".join(short(x) for x in serves_), reason_), s_.sp)
+            for o in serves_:
+                used.add((o, what))
+            r1.exception("%s | %s ×%d" % (fn, what, len(ss)), "reviewed" if cls_ == "REVIEWED" else "checked", "moved with its code out of %s: %s" % (", ".join(serves_), reason_ or arg_))
             continue
         ent = table.get((fn, what))
         spans = ", ".join(x.sp.split("/")[-1] for x in ss)
